@@ -320,6 +320,42 @@ func p17ShowObs(obs []p17Obs) string {
 	return strings.Join(ss, ",")
 }
 
+// p17Fails: the history respects the protocol up to some call at which the driver deviates from the contract
+func p17Fails(ops []p17Op) (int, p17Obs, p17Obs, bool) {
+	impl := p17RunImpl(ops, nil)
+	a := p17SpecInit()
+	for i, o := range ops {
+		if !a.allowed(o) {
+			return 0, p17Obs{}, p17Obs{}, false
+		}
+		if so := a.step(o); !so.equal(impl[i]) {
+			return i, so, impl[i], true
+		}
+	}
+	return 0, p17Obs{}, p17Obs{}, false
+}
+
+// p17Shrink drops calls as long as the history keeps failing, and describes the result.
+func p17Shrink(ops []p17Op) string {
+	i, _, _, bad := p17Fails(ops)
+	if !bad {
+		return ""
+	}
+	ops = append([]p17Op{}, ops[:i+1]...)
+	for changed := true; changed; {
+		changed = false
+		for j := 0; j < len(ops); j++ {
+			cand := append(append([]p17Op{}, ops[:j]...), ops[j+1:]...)
+			if k, _, _, b := p17Fails(cand); b {
+				ops, changed = cand[:k+1], true
+				break
+			}
+		}
+	}
+	i, want, got, _ := p17Fails(ops)
+	return fmt.Sprintf("testdrv history %s: call #%d (%s) must show %s, the driver shows %s", p17ShowOps(ops), i, ops[i], want, got)
+}
+
 // ---- registration ------------------------------------------------------------------------------------
 
 func init() {
@@ -474,8 +510,7 @@ func p17RunHist(c Case, m *Model) (v Verdict) {
 		so := a.step(o)
 		spec = append(spec, so)
 		if !so.equal(impl[i]) && len(v.Oracle) == 0 {
-			v.Oracle = append(v.Oracle, fmt.Sprintf("testdrv history %s: call #%d (%s) must show %s, the driver shows %s",
-				p17ShowOps(ops[:i+1]), i, o, so, impl[i]))
+			v.Oracle = append(v.Oracle, p17Shrink(ops)+fmt.Sprintf(" (shrunk from %s)", p17ShowOps(ops[:i+1])))
 		}
 	}
 	if mf["proto"] != strconv.Itoa(len(spec)) || mf["spec"] != p17ShowObs(spec) {
@@ -531,8 +566,7 @@ func p17RunEnum(c Case, m *Model) (v Verdict) {
 					v.Oracle = append(v.Oracle, fmt.Sprintf("testdrv history %s: call #%d panicked", p17ShowOps(path[:i+1]), i))
 				}
 				if protoOK[i+1] && !specObs[i].equal(buf[i]) && len(v.Oracle) < 3 {
-					v.Oracle = append(v.Oracle, fmt.Sprintf("testdrv history %s: call #%d (%s) must show %s, the driver shows %s",
-						p17ShowOps(path[:i+1]), i, path[i], specObs[i], buf[i]))
+					v.Oracle = append(v.Oracle, p17Shrink(path[:i+1])+fmt.Sprintf(" (shrunk from %s)", p17ShowOps(path[:i+1])))
 				}
 			}
 			firstNew = j
